@@ -76,7 +76,7 @@ Definition set_quit (x : dcli) : dcli :=
 Fixpoint take_line (acc s : text) : option (text * text) :=
   match s with
   | [] => None
-  | c :: r => if N.eqb c LF then Some (rev (c :: acc), r) else take_line (c :: acc) r
+  | c :: r => if N.eqb c LF then Some (rev_append (c :: acc) [], r) else take_line (c :: acc) r
   end.
 
 Definition cdev_of (spec : text) (d : device) : cdev :=
